@@ -1,8 +1,9 @@
 SPECIFICATION Spec
 CONSTANTS
-  Threads = {1, 2, 3}
+  Threads = {1, 2}
   L = 3
-  Rounds = 2
-  Shared = FALSE
+  Rounds = 3
+  Mode = "byid"
+  Nesting = TRUE
 INVARIANTS ReadableDuringClose ClearedAfterClose
 CHECK_DEADLOCK FALSE
